@@ -25,6 +25,16 @@ def run(ctx):
     td, nd = h1common.run_h1srv(ctx, drv, deny_cases, ctx.sub("traces_deny"), idle="inloop", cuts="whole,rand1x3", extra=["-deny"])
     traces += td
     ncases += nd
+    # option DisableKeepalive: the first request is answered and the connection closed; pipelined followers are
+    # never parsed (every 3rd script; all of them in the thorough tier)
+    nk_cases = os.path.join(ctx.scratch, "nokeep.ndjson")
+    with open(cases) as f, open(nk_cases, "w") as g:
+        for k, line in enumerate(f):
+            if not ctx.quick or k % 3 == 0:
+                g.write(line)
+    tk, nk = h1common.run_h1srv(ctx, drv, nk_cases, ctx.sub("traces_nokeep"), idle="inloop", cuts="whole,rand1x3", extra=["-nokeep"])
+    traces += tk
+    ncases += nk
     # the same scripts over loopback TCP into a real server.Hertz with the real transports (fragmentation not controllable)
     nets = ["netpoll"] if ctx.quick else ["netpoll", "standard"]
     ntcp = 0
